@@ -58,7 +58,7 @@ func init() {
 			return cs
 		},
 		func(e *vh.Env, c c16Case, o *vh.Out) {
-			o.Need("responses_checked", "generated_ids", "echoed_ids", "path_proxied", "path_429", "path_breaker", "path_nobackend", "path_413", "path_resp413", "path_401")
+			o.Need("responses_checked", "generated_ids", "echoed_ids", "path_proxied", "path_429", "path_breaker", "path_nobackend", "path_413", "path_resp413", "path_401", "path_interim")
 			bes := newBackends(2)
 			defer closeBackends(bes)
 			cfg := baseConfig(c.Strategy, bes)
@@ -106,6 +106,9 @@ func init() {
 				rq := vh.RawReq{Method: "POST", Target: "/c16/" + path, BodyLen: 10, Headers: hdr, TimeoutMs: 30000, Instant: true}
 				key := true
 				switch path {
+				case "proxied103":
+					// the backend sends Early Hints before its answer
+					rq.Headers = append(rq.Headers, [2]string{vh.ScriptHeader, vh.Script{Status: 200, Interim: []vh.Interim{{Code: 103, Headers: [][2]string{{"Link", "</s.css>; rel=preload"}}}}, Steps: []vh.Step{{Op: "write", N: 20}}}.Encode()})
 				case "proxied500":
 					rq.Headers = append(rq.Headers, [2]string{vh.ScriptHeader, vh.Script{Status: 500}.Encode()})
 				case "p413":
@@ -137,13 +140,13 @@ func init() {
 				if bes[0].Count()+bes[1].Count() == before {
 					arr = nil
 				}
-				want := map[string]int{"proxied": 200, "proxied500": 500, "p413": 413, "r413": 413, "p401": 401, "p429": 429, "breaker": 503, "nobackend": 503}[path]
+				want := map[string]int{"proxied": 200, "proxied103": 200, "proxied500": 500, "p413": 413, "r413": 413, "p401": 401, "p429": 429, "breaker": 503, "nobackend": 503}[path]
 				ctx := fmt.Sprintf("[%s] path=%s %s=%s %s=%s", cname, path, reqH, c16Values[vi].label, traceH, c16Values[vj].label)
 				if rs.Status != want {
 					o.Inconcl("%s: expected status %d on this path, got %d %q", ctx, want, rs.Status, rs.Err)
 					return true
 				}
-				o.Obs("path_"+map[string]string{"proxied": "proxied", "proxied500": "proxied", "p413": "413", "r413": "resp413", "p401": "401", "p429": "429", "breaker": "breaker", "nobackend": "nobackend"}[path], 1)
+				o.Obs("path_"+map[string]string{"proxied": "proxied", "proxied103": "interim", "proxied500": "proxied", "p413": "413", "r413": "resp413", "p401": "401", "p429": "429", "breaker": "breaker", "nobackend": "nobackend"}[path], 1)
 				for k, f := range feats {
 					v := c16Values[vals[k]]
 					sup := strings.TrimSpace(v.v) // HTTP itself trims optional whitespace around a field value
@@ -222,6 +225,9 @@ func init() {
 					return
 				}
 				time.Sleep(6 * time.Second)
+				if !send("proxied103", i, (i+1)%nv) {
+					return
+				}
 				if !send("proxied", i, i) {
 					return
 				}
